@@ -153,6 +153,7 @@ def gen_lines(g, n):
     out = []
     add = lambda suite, line: out.append((suite, line))
     w = max(1, n // 100)      # weight unit
+    ncases = n                # (`n` is reused as a local name below)
 
     # --- division family
     for _ in range(10 * w):
@@ -234,6 +235,7 @@ def gen_lines(g, n):
         add("conv", "get %s" % hx(x))
         add("conv", "tav %s" % hx(x))
         add("conv", "bitsize %s" % hx(x))
+        add("conv", "twoadic %s" % hx(x))
     for _ in range(5 * w):
         nd = 1 + r.below(9)
         c = r.below(4)
@@ -390,8 +392,73 @@ def gen_lines(g, n):
         else:
             M = [[(r.below(m) << r.below(e)) % m for _ in range(4)] for _ in range(4)]
             g.count("ker2e:even-heavy")
-        add("ker2e-oracle", "ker44two %x %s" % (e, " ".join(hx(x) for row in M for x in row)))
+        add("ker2e", "ker44two %x %s" % (e, " ".join(hx(x) for row in M for x in row)))
+    # --- Howell form / right kernel modulo an arbitrary modulus (matkermod.c), several shapes incl. 16x4 (lattice.c)
+    for _ in range(6 * w):
+        rows, cols = r.choice([(4, 4), (4, 4), (3, 2), (2, 2), (5, 3), (4, 1), (16, 4), (6, 6)])
+        c = r.below(6)
+        if c == 0:
+            m = 2 ** (1 + r.below(130))
+        elif c == 1:
+            m = r.choice([2, 3, 4, 6, 12, 30, 36, 210, 1024, 3 ** 5 * 2 ** 7])
+        elif c == 2:
+            m = r.choice(g.primes[:40])
+        elif c == 3:
+            m = 2 ** (1 + r.below(20)) * 3 ** r.below(10) * 5 ** r.below(4)
+        else:
+            m = 1 + r.bits(1 + r.below(200))
+        if m < 2:
+            m = 2
+        c2 = r.below(4)
+        if c2 == 0:
+            M = [[r.below(m) for _ in range(cols)] for _ in range(rows)]
+        elif c2 == 1:
+            M = [[(r.below(m) * r.choice([1, 2, 4, 6, m // 2 or 1])) % m for _ in range(cols)] for _ in range(rows)]
+        elif c2 == 2:
+            M = [[r.choice([0, 0, 1, r.below(m)]) for _ in range(cols)] for _ in range(rows)]
+        else:
+            M = [[r.below(m) + m * r.choice([0, 1, -1]) for _ in range(cols)] for _ in range(rows)]
+        g.count("howell:%dx%d" % (rows, cols))
+        flat = " ".join(hx(x) for row in M for x in row)
+        add("howell", "howell %x %x %s %s" % (rows, cols, hx(m), flat))
+        add("howell", "kermod %x %x %s %s" % (rows, cols, hx(m), flat))
+    # --- represent_integer / represent_integer_non_diag: the real functions (level 1 constants) over a byte stream
+    for line in gen_repint(g, 1, max(24, min(600, ncases // 400))):
+        add("repint", line)
     return out
+
+
+def gen_repint(g, lvl, nrep):
+    """op lines for the real represent_integer(_non_diag) at security level `lvl` (p and trial budget of that level)"""
+    r = g.rng
+    pL = vlib.LEVELS[lvl]["p"]
+    trials = klpt_trials(lvl)
+    out = []
+    for i in range(nrep):
+        nd = i % 2
+        c = r.below(10)
+        if c == 0:
+            tgt = r.bits(1 + r.below(pL.bit_length() - 12)) + 1; cl = "4n<p (empty first interval)"
+            stream = bytes(r.below(256) for _ in range(64))
+        elif c == 1:
+            tgt = pL * 2 ** r.below(12) + r.bits(200); cl = "n~p"
+            stream = r.bits(8 * 40000).to_bytes(40000, "little")
+        elif c == 2:
+            ub = pL.bit_length() // 2 - r.choice([1, 25]); u = r.bits(ub) | 1 | (1 << (ub - 1)); L = pL.bit_length() + 15 - ub
+            tgt = u * (2 ** L - u); cl = "stream-too-short"
+            stream = bytes(r.below(256) for _ in range(1 + r.below(12)))
+        else:
+            ub = pL.bit_length() // 2 - r.choice([35, 25, 15, 5, 1, -1, -5]); u = r.bits(ub) | 1 | (1 << (ub - 1)); L = pL.bit_length() + 15 - ub
+            tgt = u * (2 ** L - u); cl = "fixed-degree-like u(2^L-u)"
+            stream = r.bits(8 * 40000).to_bytes(40000, "little")
+        g.count("repint.lvl%d:%s" % (lvl, cl))
+        out.append("repint %x %x %s %s %s" % (nd, trials, hx(pL), hx(tgt), stream.hex()))
+    return out
+
+
+def klpt_trials(lvl=1):
+    txt = open(os.path.join(vlib.REPO, "src", "precomp", "ref", "lvl%d" % lvl, "include", "klpt_constants.h")).read()
+    return int(re.search(r"#define\s+KLPT_repres_num_gamma_trial\s+(\d+)", txt).group(1))
 
 
 def vlib_v2(x):
@@ -563,6 +630,10 @@ def oracle(line, res):
                 if x != 0 and x % 2**32 == 0:
                     return bad("two_adic_valuation(ibz_get(x)) = 0 when 2^32 | x (int truncation)", "two_adic_valuation:2^32-divides-x")
                 return bad("two_adic_valuation wrong")
+        elif op == "twoadic":
+            x = I(args[0])
+            if I(R[0]) != vlib_v2(x):
+                return bad("ibz_two_adic: not the 2-adic valuation of x (0 for x = 0)")
         elif op == "bitsize":
             x = I(args[0])
             if I(R[0]) != max(1, abs(x).bit_length()):
@@ -597,6 +668,8 @@ def oracle(line, res):
                 x, y = I(R[1]), I(R[2])
                 if x * x + n * y * y != p:
                     return bad("ibz_cornacchia_prime: false solution")
+            elif p > 2 and n >= 1 and math.gcd(n, p) == 1 and is_prime(p) and py_cornacchia(n, p) is not None:
+                return bad("ibz_cornacchia_prime: reports failure although x^2 + n y^2 = p has the solution %s" % (py_cornacchia(n, p),))
         elif op == "cornsp":
             n, p, e = I(args[0]), I(args[1]), I(args[2])
             if R[0] == "1":
@@ -652,11 +725,85 @@ def oracle(line, res):
                 v = list(map(I, R[1:]))
                 if all(x % 2 == 0 for x in v) or any(sum(M[i][j] * v[j] for j in range(4)) % 2**e for i in range(4)):
                     return bad("ibz_4x4_right_ker_mod_power_of_2: returned vector is not a primitive kernel vector")
+        elif op == "repint":
+            pL, n = I(args[2]), I(args[3])
+            if R[0] == "1":
+                nout = I(R[1]); c0, c1, c2, c3, den = map(I, R[2:7])
+                if den != 2 or c0 * c0 + c1 * c1 + pL * (c2 * c2 + c3 * c3) != 4 * nout:
+                    return bad("represent_integer: returned element does not have the returned norm")
+                if nout <= 0 or n % nout != 0 or not is_square(n // nout):
+                    return bad("represent_integer: returned norm is not the target divided by a square")
+                if (c0 - c3) % 2 or (c1 - c2) % 2 or math.gcd(math.gcd((c0 - c3) // 2, (c1 - c2) // 2), math.gcd(c2, c3)) != 1:
+                    return bad("represent_integer: returned element is not a primitive element of the standard order")
+        elif op in ("howell", "kermod"):
+            rows, cols, m = I(args[0]), I(args[1]), I(args[2]); es = list(map(I, args[3:]))
+            M = [es[i * cols:(i + 1) * cols] for i in range(rows)]
+            if op == "kermod":
+                K = list(map(I, R))
+                K = [K[i * cols:(i + 1) * cols] for i in range(cols)]
+                for i in range(rows):
+                    for j in range(cols):
+                        if sum(M[i][k] * K[k][j] for k in range(cols)) % m:
+                            return bad("ibz_mat_right_ker_mod: a returned column is not in the kernel of the matrix modulo m")
+            else:
+                z = I(R[0]); bar = R.index("|")
+                H = list(map(I, R[1:bar])); T = list(map(I, R[bar + 1:]))
+                n1 = rows + 1
+                extra = rows + 1 - cols
+                H = [H[i * n1:(i + 1) * n1] for i in range(rows)]; T = [T[i * n1:(i + 1) * n1] for i in range(n1)]
+                for i in range(rows):
+                    for j in range(n1):
+                        if (sum(M[i][k] * T[k + extra][j] for k in range(cols)) - H[i][j]) % m:
+                            return bad("ibz_mat_howell: howell != [0|mat]*trans modulo m")
+                if any(H[i][j] % m for i in range(rows) for j in range(z)):
+                    return bad("ibz_mat_howell: the first `zeros` columns are not zero")
         else:
             return bad("unknown op in oracle")
     except (IndexError, ValueError):
         return bad("unparsable result %r" % res)
     return None
+
+
+def py_sqrt_mod(a, p):
+    """square root of a modulo an odd prime p (Tonelli-Shanks), or None"""
+    a %= p
+    if a == 0:
+        return 0
+    if pow(a, (p - 1) // 2, p) != 1:
+        return None
+    q, e = p - 1, 0
+    while q % 2 == 0:
+        q //= 2; e += 1
+    z = 2
+    while pow(z, (p - 1) // 2, p) != p - 1:
+        z += 1
+    c, x, t, m = pow(z, q, p), pow(a, (q + 1) // 2, p), pow(a, q, p), e
+    while t != 1:
+        i, t2 = 0, t
+        while t2 != 1:
+            t2 = t2 * t2 % p; i += 1
+        b = pow(c, 1 << (m - i - 1), p)
+        x, t, c, m = x * b % p, t * b * b % p, b * b % p, i
+    return x
+
+
+def py_cornacchia(n, p):
+    """independent implementation: a solution of x^2 + n y^2 = p (p odd prime, gcd(n,p)=1) or None"""
+    r = py_sqrt_mod(-n, p)
+    if r is None:
+        return None
+    for r0 in (r, p - r):
+        a, b = p, r0
+        while b * b >= p:
+            a, b = b, a % b
+        rem = p - b * b
+        if rem % n == 0 and is_square(rem // n):
+            return b, math.isqrt(rem // n)
+    return None
+
+
+def is_square(v):
+    return v >= 0 and math.isqrt(v) ** 2 == v
 
 
 def complex_pow(a, e):
@@ -673,7 +820,8 @@ def run_parallel(ctx, exe, lines, nproc=16):
     if n == 0:
         return [], []
     k = min(nproc, max(1, n // 200))
-    chunks = [lines[i * n // k:(i + 1) * n // k] for i in range(k)]
+    # round-robin assignment: expensive suites (repint, howell) are contiguous in `lines`
+    chunks = [lines[i::k] for i in range(k)]
 
     def one(ch):
         rc, cout, cerr = vlib.run_c([exe], ch)
@@ -684,8 +832,11 @@ def run_parallel(ctx, exe, lines, nproc=16):
 
     with ThreadPoolExecutor(max_workers=k) as ex:
         parts = list(ex.map(one, chunks))
-    c = [x for p in parts for x in p[0]]
-    m = [x for p in parts for x in p[1]]
+    c = [None] * n
+    m = [None] * n
+    for i, (cres, mres) in enumerate(parts):
+        c[i::k] = cres
+        m[i::k] = mres
     return c, m
 
 
@@ -733,6 +884,37 @@ def harness_stage(ctx, exe, ncases):
         ctx.coverage["ker2e_certificates"] = dict(checked=len(cert), rejected=len(rejected))
         for x, v in rejected[:2]:
             found.append((("ker44two:" + x[1][9:130], "ibz_4x4_right_ker_mod_power_of_2: returned vector rejected by the proved-sound Lean checker (not a primitive kernel vector)"), x[1], x[2], "checker:" + v))
+    # certificate pass 2: outputs of the real ibz_mat_howell / ibz_mat_right_ker_mod through the Lean checker matMulCheck
+    # (theorem SqiProps.C17.mat_mul_check_sound):  [0|mat]*trans = howell (mod m)   and   mat*ker = 0 (mod m)
+    cert2 = []
+    for (suite, line), c in zip(cases, cout):
+        t = line.split()
+        if t[0] not in ("howell", "kermod") or c.startswith("<"):
+            continue
+        try:
+            rows, cols, m = int(t[1], 16), int(t[2], 16), t[3]
+            es = t[4:]
+            R = c.split()
+            if t[0] == "kermod":
+                zero = ["0"] * (rows * cols)
+                cert2.append(("chkmul %x %x %x %s %s %s %s" % (rows, cols, cols, m, " ".join(es), " ".join(R), " ".join(zero)), line, c))
+            else:
+                bar = R.index("|"); H = R[1:bar]; T = R[bar + 1:]
+                n1 = rows + 1; extra = n1 - cols
+                A = []
+                for i in range(rows):
+                    A += ["0"] * extra + es[i * cols:(i + 1) * cols]
+                cert2.append(("chkmul %x %x %x %s %s %s %s" % (rows, n1, n1, m, " ".join(A), " ".join(T), " ".join(H)), line, c))
+        except (ValueError, IndexError):
+            cert2.append(("chkmul 0", line, c))
+    if cert2:
+        verd = ctx.driver([x[0] for x in cert2])
+        rej = [(x, v) for x, v in zip(cert2, verd) if v != "1"]
+        ctx.obligation("Lean certificate checker accepts every output of the real ibz_mat_howell / ibz_mat_right_ker_mod (%d matrices)" % len(cert2),
+                       not rej, json.dumps([dict(op=x[1][:200], impl=x[2][:200], checker=v) for x, v in rej[:3]])[:600])
+        ctx.coverage["howell_certificates"] = dict(checked=len(cert2), rejected=len(rej))
+        for x, v in rej[:2]:
+            found.append((((x[1].split()[0] + ":" + " ".join(x[1].split()[1:])[:120]), "ibz_mat_howell / ibz_mat_right_ker_mod: output rejected by the proved-sound Lean checker (matrix identity modulo m fails)"), x[1], x[2], "checker:" + v))
     ctx.coverage["generator_histogram"] = dict(sorted(g.hist.items()))
     ctx.coverage["oracle_failures_total"] = len(found)
     ctx.coverage["primes_used"] = len(g.primes)
@@ -768,7 +950,7 @@ def ubsan_replay(ctx):
     except vlib.BuildError as e:
         ctx.log("sanitizer build failed: %s" % str(e)[-300:])
         return None
-    exe = ctx.cc_harness(HARNESS, os.path.join(ctx.tmp, "drv_int_san"), 1, san=True, build=b)
+    exe = ctx.cc_harness(HARNESS, os.path.join(ctx.tmp, "drv_int_san"), 1, san=True, build=b, defs=("DRV_NO_KLPT",))
     res = {}
     for name, line in (("witness", "randint 0 ffffffffffffffff 0102030405060708"), ("control", "randint 0 fffffffffffffff 0102030405060708")):
         p = subprocess.run([exe], input=(line + "\n").encode(), stdout=subprocess.PIPE, stderr=subprocess.PIPE,
@@ -776,6 +958,28 @@ def ubsan_replay(ctx):
         err = p.stderr.decode("utf-8", "replace")
         res[name] = dict(rc=p.returncode, out=p.stdout.decode().strip(), ubsan=[l for l in err.split("\n") if "runtime error" in l][:2])
     return res
+
+
+def replay(ctx, rp):
+    """./check C17 --replay <file>: re-run the recorded op on a freshly built harness (and on the model) and re-evaluate
+    the defining equation; exit 1 iff the real code still violates it"""
+    op = (rp.get("replay") or {}).get("op")
+    print(json.dumps(rp, indent=1)[:3000])
+    if not op:
+        return 0
+    b = ctx.build_repo("ref")
+    lvl = (rp.get("replay") or {}).get("level", 1)
+    exe = ctx.cc_harness(HARNESS, os.path.join(ctx.tmp, "drv_int"), lvl, build=b)
+    ctx.lake(["driver"])
+    rc, cout, cerr = vlib.run_c([exe], [op])
+    mout = ctx.driver([op.lstrip("!")])
+    c = cout[0] if cout else "<no output rc=%d %s>" % (rc, cerr[-300:])
+    verdict = oracle(op, c)
+    print("REPLAY op:    %s" % op[:400])
+    print("REPLAY impl:  %s" % c[:400])
+    print("REPLAY model: %s" % (mout[0] if mout else "<none>")[:400])
+    print("REPLAY oracle: %s" % (verdict[1] if verdict else "defining equation satisfied"))
+    return 1 if verdict else 0
 
 
 def run(ctx):
@@ -803,6 +1007,24 @@ def run(ctx):
     ok = vlib.proof_stage(ctx, ["SqiProps.C17"], searcher=searcher, extra_targets=["driver"])
     if "hs" not in state:
         state["hs"] = harness_stage(ctx, exe, 10**4 if ctx.quick else 10**6)
+    # represent_integer at the two other security levels (separate harness binaries: the level is a compile-time choice)
+    for lvl in (3, 5):
+        exe_l = ctx.cc_harness(HARNESS, os.path.join(ctx.tmp, "drv_int_l%d" % lvl), lvl, build=b)
+        gl = Gen.__new__(Gen); gl.ctx = ctx; gl.rng = ctx.rng.fork("c17-lvl%d" % lvl); gl.hist = {}
+        ll = gen_repint(gl, lvl, 8 if ctx.quick else 120)
+        cout_l, mout_l = run_parallel(ctx, exe_l, ll)
+        dis = [dict(op=l[:200], impl=c[:200], model=m[:200]) for l, c, m in zip(ll, cout_l, mout_l) if c != m]
+        ctx.evaluations += len(ll)
+        ctx.obligation("correspondence repint level %d (%d ops)" % (lvl, len(ll)), not dis, json.dumps(dis[:2])[:600])
+        ctx.coverage.setdefault("correspondence", {})["repint-lvl%d" % lvl] = dict(ops=len(ll), disagreements=len(dis))
+        ctx.coverage.setdefault("generator_histogram", {}).update(gl.hist)
+        for l, c, m in zip(ll, cout_l, mout_l):
+            o = oracle(l, c)
+            if o:
+                ctx.violation(o[0], o[1], dict(op=l[:400], impl_output=c, model_output=m, level=lvl))
+            elif c != m:
+                ctx.violation("corr:repint-lvl%d:%s" % (lvl, l[:80]), "model and implementation disagree on represent_integer at level %d although the implementation satisfies the defining equations" % lvl,
+                              dict(op=l[:400], impl=c, model=m), found=False)
     # UBSan replay of the shift witness (known finding) on the real code
     rp = ubsan_replay(ctx)
     if rp is not None:
